@@ -87,6 +87,7 @@ func C19(c *core.Ctx) {
 	c12CodeVsData(c, "C19-R1", tables)
 	c19Files(c)
 	c19Coherence(c)
+	c19SchemaEnums(c)
 	c19SelfValidation(c)
 	_ = p
 }
